@@ -25,9 +25,8 @@
 (***************************************************************************)
 EXTENDS Integers, Sequences, FiniteSets, TLC, SequencesExt
 
-CONSTANTS FFs,      \* sequence of force fields [blocks, links, mods] (see MC_FFMap / FFTrace for the shape)
-          Inputs,   \* set of input records [ff (index into FFs), n, start, rn, fi, edges, sel]
-          Dev       \* record of BOOLEAN deviation flags
+CONSTANTS Inputs,   \* set of input records [ff (id), F (the force field: [blocks, links, mods]), n, start, rn, fi, edges, sel]
+          Dev       \* record of BOOLEAN deviation flags   (shapes: see MC_FFMap / FFTrace)
 
 VARIABLES inp,      \* the input of this behaviour
           pc,       \* "match" "tag" "add" "links" "mods" "done"
@@ -71,9 +70,9 @@ Within(E, a, b, d) == d >= 0 /\ b \in Ball(E, a, d)
 (* ------------------------------------------------------------------ *)
 (* input accessors                                                    *)
 (* ------------------------------------------------------------------ *)
-FB(I) == FFs[I.ff].blocks
-FL(I) == FFs[I.ff].links
-FM(I) == FFs[I.ff].mods
+FB(I) == I.F.blocks
+FL(I) == I.F.links
+FM(I) == I.F.mods
 Pos(I) == 1..I.n
 Resid(I, i) == I.start + i - 1
 GE(I) == {{e[1], e[2]} : e \in ToSet(I.edges)}
@@ -85,7 +84,7 @@ Blk(I, i) == BlockNamed(I, BlkName(I, i))
 NRes(b) == Cardinality({b.atoms[a].res : a \in DOMAIN b.atoms})
 LastCg(b) == b.atoms[Len(b.atoms)].cg
 BlockEdges(b) == {{e[1], e[2]} : e \in ToSet(b.edges)}
-Shift(x, off) == [x EXCEPT !.at = [j \in DOMAIN x.at |-> x.at[j] + off]]
+Shift(x, off) == [x EXCEPT !.at = TLCEval([j \in DOMAIN x.at |-> x.at[j] + off])]
 \* fragment edges: residue-graph edges between two from_itp residues of the same block
 FragEdges(I) == {e \in GE(I) : \A x \in e : IsFrag(I, x) /\ \A y \in e : I.fi[x] = I.fi[y]}
 
@@ -144,7 +143,7 @@ DomOK(I) ==
               /\ \A j \in 0..(L.nres[i] - 1) : L.first[i] + j \in L.comp[i] /\ L.loc[L.first[i] + j] = j + 1
               /\ \A a \in DOMAIN L.blk[i].atoms : L.blk[i].atoms[a].res = L.loc[i] => L.blk[i].atoms[a].rn = I.rn[i]
          ELSE L.nres[i] = 1
-  /\ BlocksOK(FFs[I.ff])
+  /\ BlocksOK(I.F)
 
 (* ---- applicable links (kept minimal: the link rule itself is C02, spec/Links.tla) ---- *)
 OrdOK(o, i, j) == IF o = "+" THEN j = i + 1 ELSE IF o = ">" THEN j > i ELSE i = j
@@ -175,7 +174,7 @@ SetF(atom, f, v) == CASE f = "ty" -> [atom EXCEPT !.ty = v] [] f = "q" -> [atom 
 Key(x) == <<x.sec, x.at, x.ver>>
 Touches(x, S) == \E j \in DOMAIN x.at : x.at[j] \in S
 RenumIdx(g, R) == g - Cardinality({r \in R : r < g})
-Renum(x, R) == [x EXCEPT !.at = [j \in DOMAIN x.at |-> RenumIdx(x.at[j], R)]]
+Renum(x, R) == [x EXCEPT !.at = TLCEval([j \in DOMAIN x.at |-> RenumIdx(x.at[j], R)])]
 LinkEdges(apps) == UNION {{{apps[j].ints[x].at[1], apps[j].ints[x].at[2]} : x \in {y \in DOMAIN apps[j].ints : apps[j].ints[y].sec \in EdgeSections}} : j \in DOMAIN apps}
 
 \* which modifications are selected: an explicit -mods list, or the protein termini by default
